@@ -3857,9 +3857,14 @@ impl M2Model {
                     + (i * texture_def_size)
                     + 8;
 
+                // The bytes written below: the name and its terminator. The parsed count can
+                // differ from that (padded or unterminated names), so it must not be used to
+                // advance the offset.
+                let written_len = texture.filename.string.data.len() + 1;
+
                 // Update the count and offset for the filename
                 data_section[def_offset_in_data..def_offset_in_data + 4]
-                    .copy_from_slice(&(filename_len as u32).to_le_bytes());
+                    .copy_from_slice(&(written_len as u32).to_le_bytes());
                 data_section[def_offset_in_data + 4..def_offset_in_data + 8]
                     .copy_from_slice(&current_offset.to_le_bytes());
 
@@ -3867,7 +3872,7 @@ impl M2Model {
                 data_section.extend_from_slice(&texture.filename.string.data);
                 data_section.push(0); // Null terminator
 
-                current_offset += filename_len as u32;
+                current_offset += written_len as u32;
             }
         } else {
             header.textures = M2Array::new(0, 0);
